@@ -539,3 +539,35 @@ pub fn c15_probes() -> Vec<Probe> {
     });
     out
 }
+
+/// C16: explicit `resp=` naming an associated type of an interface.
+pub fn c16_probes() -> Vec<Probe> {
+    let opts = RenderOpts { sv: "sylvia".into(), glue: false };
+    let mut out = vec![];
+    for explicit in [true, false] {
+        let mut p = simple_program();
+        let mut q = method("peek", Kind::Query, vec![]);
+        q.resp = RespTy::Param(0);
+        q.resp_explicit = explicit;
+        q.err = ErrTy::Custom;
+        p.interfaces.push(Interface {
+            module: "if_a".into(),
+            trait_name: "IfA".into(),
+            explicit_as: false,
+            assoc: vec![Ty::Rec],
+            style: CustomStyle::Plain,
+            methods: vec![q],
+            msg_attrs: vec![],
+        });
+        out.push(Probe {
+            unit: Unit { name: format!("resp_assoc_{}", if explicit { "explicit" } else { "inferred" }), source: unit_source("sylvia", &render::render_source(&p, &opts)) },
+            want: Want::Compiles,
+            key: format!("resp-assoc:{}", if explicit { "explicit" } else { "inferred" }),
+            what: format!("an interface query whose response is an associated type ({}) does not compile", if explicit { "named with resp=A0 behind a result alias" } else { "read from Result<Self::A0, _>" }),
+            nontrivial: true,
+            class: "response:associated-type".into(),
+            item_line: None,
+        });
+    }
+    out
+}
